@@ -24,20 +24,57 @@ var vMaxSizes = []uint64{8, 14, 24, 1000}
 type vWalRun struct {
 	appended [][]byte
 	synced   []int // journal length right after the AppendSync of record i returned (-1: not a sync append)
+	syncNo   []int // number of the sync append (for the marks of the fsync watcher), -1: not a sync append
+	watch    *vrt.FS
 	rotates  int
 	// observations of the model file system that have no native counterpart (fsync cannot be seen through the
 	// writer seam natively); asserted last, so that a natively reproducible consequence is reported first
 	syncReached, syncEndsWithFsync bool
 }
 
+// assertSyncs: every synchronous append wrote something and the last thing it did to the file system was an fsync.
+// Under the engine the model file system records that; natively the test process traces its own system calls
+// (strace) around the program and the marks tell which calls belong to which append.
 func (run *vWalRun) assertSyncs() {
+	if !vrt.Symbolic() && run.watch != nil {
+		run.watch.TraceStop()
+		n := 0
+		for _, s := range run.syncNo {
+			if s < 0 {
+				continue
+			}
+			n++
+			b, e := run.watch.Index(vrt.K("b", s)), run.watch.Index(vrt.K("e", s))
+			run.syncReached = run.syncReached && e > b
+			ends := false
+			for _, m := range run.watch.SyncMarks {
+				if m == e {
+					ends = true
+				}
+			}
+			run.syncEndsWithFsync = run.syncEndsWithFsync && ends
+		}
+		run.watch = nil
+	}
 	vrt.Assert(run.syncReached, "wal/sync-append-reaches-the-file")
 	vrt.Assert(run.syncEndsWithFsync, "wal/sync-append-ends-with-fsync")
 }
 
 // vRunProgram drives the real appender with a program of Append / AppendSync / Rotate.
-func vRunProgram(fs *vrt.FS, a WriteAheadLogAppendI, steps int, maxRec int) *vWalRun {
-	run := &vWalRun{syncReached: true, syncEndsWithFsync: true}
+// vStartWatch (native runs): trace the file-system calls of the test process from here on (before the appender
+// opens its first file, so that the trace knows every descriptor).
+func vStartWatch(fs *vrt.FS) *vrt.FS {
+	if vrt.Symbolic() {
+		return nil
+	}
+	w := fs.Watcher()
+	w.NotePreexisting()
+	w.TraceStart()
+	return w
+}
+
+func vRunProgram(fs *vrt.FS, a WriteAheadLogAppendI, steps int, maxRec int, watch *vrt.FS) *vWalRun {
+	run := &vWalRun{syncReached: true, syncEndsWithFsync: true, watch: watch}
 	n := vrt.Range("steps", 0, steps)
 	for s := 0; s < n; s++ {
 		switch vrt.Choose(vrt.K("op", s), 3) {
@@ -46,12 +83,21 @@ func vRunProgram(fs *vrt.FS, a WriteAheadLogAppendI, steps int, maxRec int) *vWa
 			vrt.Assert(a.Append(rec) == nil, "wal/append-no-error")
 			run.appended = append(run.appended, rec)
 			run.synced = append(run.synced, -1)
+			run.syncNo = append(run.syncNo, -1)
 		case 1:
 			rec := vrt.BytesOrNil(vrt.K("r", len(run.appended)), maxRec)
 			before := len(fs.Journal)
+			sn := len(run.syncNo)
+			if run.watch != nil {
+				run.watch.Mark(vrt.K("b", sn))
+			}
 			vrt.Assert(a.AppendSync(rec) == nil, "wal/append-sync-no-error")
+			if run.watch != nil {
+				run.watch.Mark(vrt.K("e", sn))
+			}
 			run.appended = append(run.appended, rec)
 			run.synced = append(run.synced, len(fs.Journal))
+			run.syncNo = append(run.syncNo, sn)
 			if vrt.Symbolic() {
 				// sync append = write + flush + fsync before it returns
 				run.syncReached = run.syncReached && len(fs.Journal) > before
@@ -92,9 +138,10 @@ func H_C07_Replay() {
 	if vrt.Thorough() {
 		steps = 4
 	}
+	watch := vStartWatch(fs)
 	a, err := NewAppender(vWalOpts(fs, dir, maxSize, wbuf))
 	vrt.Assert(err == nil, "wal/new-appender-no-error")
-	run := vRunProgram(fs, a, steps, 2)
+	run := vRunProgram(fs, a, steps, 2, watch)
 	vrt.Assert(a.Close() == nil, "wal/close-no-error")
 
 	files := fs.List(dir)
@@ -141,9 +188,10 @@ func H_C07_Crash() {
 	if vrt.Thorough() {
 		steps = 4
 	}
+	watch := vStartWatch(fs)
 	a, err := NewAppender(vWalOpts(fs, dir, maxSize, wbuf))
 	vrt.Assert(err == nil, "walcrash/new-appender-no-error")
-	run := vRunProgram(fs, a, steps, 2)
+	run := vRunProgram(fs, a, steps, 2, watch)
 	// kill: no Close. The crash point is any prefix of the journal.
 	k := vrt.Range("crash", 0, len(fs.Journal))
 	if k < len(fs.Journal) {
